@@ -17,6 +17,9 @@ Families
                      payoffs incl. forward start, functions and classes; oracle = the contract in python
                      (IEEE double) arithmetic, bitwise.
   variance_swap      VarianceSwap.payoff and realized_variance - strike on all paths, T >= 2 (mpmath oracle).
+  reuse              every history of <= 2 (thorough 3) mutations on ONE derivative object (strike, call flag,
+                     start, maturity, added clause, re-registered paths, paths overwritten in place) with
+                     payoff() evaluated after every step against the contract for the current state.
   clauses            all sequences of <= 3 clauses from {x2, +1, cap 1/2, knock-out on the path maximum}
                      under every assignment of clause names (so registration order != name order), on
                      all paths, for the option classes; oracle = fold in registration order.  One function
@@ -761,6 +764,152 @@ def clauses(ctx, block):
 
 
 # ---------------------------------------------------------------------------
+# object reuse: histories of term changes on ONE derivative object
+# ---------------------------------------------------------------------------
+
+REUSE_KINDS = KINDS + ("forward_start", "variance_swap")
+
+
+def reuse_ops(kind, T):
+    """Mutation alphabet for one derivative object (initial state: strike 16/16, call, start = 1 step,
+    no clause, path set A)."""
+    ops = [["strike", k] for k in (20, 18, 16)]
+    if kind in KINDS:
+        ops += [["call"]] + [["clause", c] for c in ("double", "plus1", "knockout")]
+    if kind == "forward_start":
+        ops += [["start", j] for j in sorted({0, T - 1, 1})]
+    ops += [["maturity"], ["paths_new"], ["paths_inplace"]]
+    return ops
+
+
+def _reuse_strike(kind, k16):
+    return k16 / 256 if kind == "variance_swap" else k16 / SC
+
+
+@family
+def reuse(ctx, block):
+    """Every history of <= depth mutations on one derivative object whose underlier keeps the registered
+    paths; payoff() is evaluated in the initial state and after every mutation and must equal the contract
+    for the CURRENT terms / clauses / buffer contents.  Path set B = set A reversed in time (same shape).
+    Exact for the option classes; forward start 2 eps (ratio + K); variance swap as in variance_swap."""
+    import mpmath as mp
+    import pfhedge.instruments as I
+    from mc.core.explore import all_histories
+    kind = block["kind"]
+    dtype = DT[block["dtype"]]
+    eps = torch.finfo(dtype).eps
+    pathsA = _paths16(block)
+    pathsB = [p[::-1] for p in pathsA]
+    N, T = len(pathsA), len(pathsA[0])
+    tens = {"A": _tensor(pathsA, dtype), "B": _tensor(pathsB, dtype)}
+    plist = {"A": pathsA, "B": pathsB}
+    frp = {"A": _fr(pathsA), "B": _fr(pathsB)}
+    barrier16 = 24
+    site = {"forward_start": "EuropeanForwardStartOption", "variance_swap": "VarianceSwap"}.get(kind) or CLASSNAME[kind]
+    site += ".payoff"
+    histories = block.get("histories")
+    if histories is None:
+        histories = list(all_histories(reuse_ops(kind, T), block["depth"]))
+    cache = {}
+
+    def expected(st):
+        """list of (value, tolerance) for the current state."""
+        key = (st["k16"], st["call"], st["start"], tuple(st["clauses"]), st["paths"])
+        if key in cache:
+            return cache[key]
+        out = []
+        K = Fraction(st["k16"], SC)
+        for p in frp[st["paths"]]:
+            if kind == "forward_start":
+                e = payoff_ref.forward_start(p, K, st["start"])
+                tol = 2 * eps * float(p[-1] / p[st["start"]] + K)
+            elif kind == "variance_swap":
+                v, scale = payoff_ref.realized_variance(p, market.DT)
+                k = st["k16"] / 256
+                e = v - mp.mpf(k)
+                tol = 2 * eps * (2 * scale + (T + 3) * v + 2 * abs(k))
+            else:
+                e = payoff_ref.fold_clauses(p, payoff_ref.payoff(kind, p, K, st["call"]), st["clauses"],
+                                            Fraction(barrier16, SC))
+                tol = 0
+            out.append((e, tol))
+        cache[key] = out
+        return out
+
+    for hist in histories:
+        stock = market.primary("brownian", dtype=dtype)
+        market.set_buffers(stock, spot=tens["A"])
+        st = {"k16": 16, "call": True, "start": min(1, T - 1), "clauses": [], "paths": "A"}
+        if kind in KINDS:
+            d = market.derivative(kind, stock, T=T, strike=1.0, call=True)
+        elif kind == "forward_start":
+            d = I.EuropeanForwardStartOption(stock, strike=1.0, maturity=(T - 1) * market.DT,
+                                             start=st["start"] * market.DT)
+        else:
+            d = I.VarianceSwap(stock, strike=_reuse_strike(kind, 16), maturity=(T - 1) * market.DT)
+        supply = clause_supplier("function", barrier16 / SC)
+        prev = None
+        for step in range(len(hist) + 1):
+            if step > 0:
+                op = hist[step - 1]
+                if op[0] == "strike":
+                    d.strike = _reuse_strike(kind, op[1])
+                    st["k16"] = op[1]
+                elif op[0] == "call":
+                    d.call = not d.call
+                    st["call"] = not st["call"]
+                elif op[0] == "start":
+                    d.start = op[1] * market.DT
+                    st["start"] = op[1]
+                elif op[0] == "maturity":
+                    d.maturity = d.maturity + market.DT      # the payoff reads the registered paths only
+                elif op[0] == "clause":
+                    d.add_clause(f"c{len(st['clauses'])}", supply(op[1]))
+                    st["clauses"] = st["clauses"] + [op[1]]
+                elif op[0] == "paths_new":
+                    st["paths"] = "B" if st["paths"] == "A" else "A"
+                    market.set_buffers(stock, spot=tens[st["paths"]])
+                elif op[0] == "paths_inplace":
+                    st["paths"] = "B" if st["paths"] == "A" else "A"
+                    with torch.no_grad():
+                        stock.spot.copy_(tens[st["paths"]])
+                else:
+                    raise KeyError(op)
+                ctx.add("transitions", 1)
+            out = d.payoff()
+            exp = expected(st)
+            changed = 0 if prev is None else sum(1 for a, b in zip(exp, prev) if a[0] != b[0])
+            ctx.tick(N, nontrivial=changed)
+            prev = exp
+            cls = "reuse:" + (">".join(o[0] for o in hist[:step]) if step else "initial")
+
+            def mini(path):
+                return {"kind": kind, "dtype": block["dtype"], "paths16": [path], "histories": [hist[:step]]}
+            if tuple(out.shape) != (N,):
+                ctx.violation(site, cls + ":shape", f"shape {tuple(out.shape)}", observed=list(out.shape), expected=[N],
+                              block=mini(pathsA[0]))
+                break
+            ol = out.to(torch.float64).tolist()
+            bad = None
+            for i, (e, tol) in enumerate(exp):
+                o = ol[i]
+                ok = (o == o) and ((Fraction(o) == e) if tol == 0 else abs(mp.mpf(o) - mp.mpf(float(e)) if isinstance(e, Fraction) else mp.mpf(o) - e) <= tol + (abs(float(e)) * 2 ** -52 if isinstance(e, Fraction) else 0))
+                if not ok:
+                    bad = i
+                    break
+            if bad is not None:
+                terms = {"strike": _reuse_strike(kind, st["k16"]), "call": st["call"], "start_step": st["start"],
+                         "clauses": st["clauses"], "paths": plist[st["paths"]][bad]}
+                ctx.violation(site, cls, f"one {site.split('.')[0]} object after the history {hist[:step]}: payoff() "
+                              f"does not equal the contract for the current state {terms}", observed=ol[bad],
+                              expected=float(exp[bad][0]), block=mini(pathsA[bad]))
+                break
+            ctx.outcome((kind, tuple(tuple(o) for o in hist[:step]), round(sum(ol), 6)))
+        ctx.add("traces_validated_against_impl", 1)
+    ctx.add("states", len(cache))
+
+
+# ---------------------------------------------------------------------------
 
 def run(ctx):
     ctx.rule("every path of length T over the price alphabet (full product) x every strike symbol x call/put "
@@ -777,6 +926,9 @@ def run(ctx):
                "nothing in between is enumerated.  Variance swap on one-point paths is excluded (no return)")
     ctx.assume("non-dyadic family: float64 only; the python-float evaluation of the contract (one subtraction / "
                "comparison / division) is bit-for-bit the IEEE double result torch float64 must return")
+    ctx.assume("reuse histories: payoff() must reflect the current public attributes (strike, call, start), the "
+               "registered clauses and the current content of the spot buffer; removing a clause has no public API "
+               "and is not enumerated")
     ctx.assume("clauses are represented by the enumerated alphabet, not by all programs; re-registration under "
                "an existing name is not enumerated")
     base = [12, 16, 20, 24]                       # 0.75, 1, 1.25, 1.5
@@ -863,6 +1015,24 @@ def run(ctx):
     # default-constructed variance swap (strike 0.04, maturity 20/250, dt 1/250): T = 21, two-symbol tail
     tail = [[16] * 19 + [a, b] for a in A4 for b in A4]
     ctx.run("variance_swap", {"dtype": "float64", "paths16": tail, "strikes": [0.04], "dts": [1 / 250]})
+    # object reuse histories
+    depth = ctx.pick(2, 3)
+    ctx.info["reuse_history_depth"] = depth
+    ctx.alphabet("reuse mutations", ["strike:=1.25|1.125|1", "toggle call", "start:=step 0|1|T-1", "maturity+=dt",
+                                     "add clause x2|+1|knock-out", "register other paths", "overwrite paths in place"])
+    rblocks = []
+    for kind in REUSE_KINDS:
+        for dtype in ("float64", "float32"):
+            if dtype == "float32" and kind != "european":
+                continue
+            rblocks.append({"kind": kind, "dtype": dtype, "T": 3, "A16": A4, "depth": depth})
+    rblocks.append({"kind": "european", "dtype": "float64", "T": 1, "A16": A5, "depth": depth})
+    rblocks.append({"kind": "lookback", "dtype": "float64", "T": 2, "A16": A5, "depth": depth})
+    if ctx.thorough:
+        ctx.run_parallel("reuse", rblocks, workers=4)
+    else:
+        for b in rblocks:
+            ctx.run("reuse", b)
     # clauses
     ctx.alphabet("clauses", list(CLAUSE_ALPHABET))
     ctx.info["clause_programs"] = len(clause_programs(3))
